@@ -1,18 +1,18 @@
-\* quick tier: 2 faults on the most concurrent shape (batch 2, 2 fetchers, 2 submitters), honest source
+\* thorough tier: as MigrillianWide with and without growth
 CONSTANTS
   MaxIdx = 4
   FaultKinds = {"short", "fetchErr", "quota", "fatal", "rootErr", "sthErr", "consErr", "cancel", "revoke"}
   KeepHist = FALSE
   SrcSizes = {3}
-  Growths = {1}
-  Batches = {2}
-  FetcherCounts = {2}
-  SubmitterCounts = {2}
+  Growths = {0, 1}
+  Batches = {1, 2}
+  FetcherCounts = {1, 2}
+  SubmitterCounts = {1, 2}
   Modes = {"run", "master"}
   Conts = {TRUE, FALSE}
-  Forks = {FALSE}
-  MaxFaults = 2
-  FaultBudgets = {2}
+  Forks = {TRUE, FALSE}
+  MaxFaults = 1
+  FaultBudgets = {1}
   MaxRestarts = 1
 INIT MCInit
 NEXT Next
